@@ -59,15 +59,23 @@ func (m *Model) claimLoadInClearingHold(v ssa.Value) bool {
 	}
 	f := call.Parent()
 	okHold := false
+	// the clear: a Store(false) in f, or a call of a function that always clears the claim
+	var clears []ssa.Instruction
 	eachInstr(f, func(in ssa.Instruction) {
-		val, isConst, isStore := m.claimStore(in)
-		if !isStore || !isConst || val {
-			return
+		if val, isConst, isStore := m.claimStore(in); isStore && isConst && !val {
+			clears = append(clears, in)
 		}
+		if c2, ok := in.(*ssa.Call); ok {
+			if g := c2.Call.StaticCallee(); g != nil && m.isLib(g) && g != f && m.alwaysClears(g, 0) {
+				clears = append(clears, in)
+			}
+		}
+	})
+	for _, in := range clears {
 		if !la.MustBefore(in)[m.implMuW()] || !dominatesInstr(call, in) {
-			return
+			continue
 		}
-		// no Unlock of the election mutex between the load and the store
+		// no Unlock of the election mutex between the load and the clear
 		unlockBetween := false
 		eachInstr(f, func(x ssa.Instruction) {
 			if c2, ok := x.(*ssa.Call); ok {
@@ -81,7 +89,7 @@ func (m *Model) claimLoadInClearingHold(v ssa.Value) bool {
 		if !unlockBetween {
 			okHold = true
 		}
-	})
+	}
 	return okHold
 }
 
@@ -194,7 +202,7 @@ func checkC08(c *Ctx) {
 	}
 	var starts []start
 	for _, f := range m.Funcs {
-		if f == m.Ctor {
+		if m.isCtorCode(f) {
 			continue
 		}
 		eachInstr(f, func(in ssa.Instruction) {
